@@ -26,8 +26,41 @@ fn strip<'a>(s: &'a str, pre: &str) -> Option<&'a str> {
 }
 
 fn check_exec(ctx: &mut Ctx, words: &[String], class: &str) {
-    let out = ctx.work.join("c19.out");
     let e = Exec::cmd(&words[0]).args(&words[1..]);
+    check_built(ctx, &e, words, class)
+}
+
+/// The command is put together step by step and looked at in between (logging what is about to be run, then adding
+/// more arguments): every rendering shows the command as it is at that moment.
+fn check_incremental(ctx: &mut Ctx, rng: &mut Rng, words: &[String]) {
+    let mut e = Exec::cmd(&words[0]);
+    let mut have = 1;
+    let mut looks = 0;
+    while have < words.len() {
+        if rng.chance(500) {
+            check_built(ctx, &e, &words[..have], "looked-at-while-being-built");
+            looks += 1;
+        }
+        if rng.chance(200) {
+            e = e.clone();
+        }
+        let take = (rng.range(1, 3) as usize).min(words.len() - have);
+        if take == 1 && rng.chance(500) {
+            e = e.arg(&words[have]);
+        } else {
+            e = e.args(&words[have..have + take]);
+        }
+        have += take;
+    }
+    if rng.chance(300) {
+        e = e.clone();
+    }
+    ctx.count("renderings_of_a_command_still_being_built", looks);
+    check_built(ctx, &e, words, "looked-at-while-being-built");
+}
+
+fn check_built(ctx: &mut Ctx, e: &Exec, words: &[String], class: &str) {
+    let out = ctx.work.join("c19.out");
     let lossy = e.to_cmdline_lossy();
     let dbg = format!("{:?}", e);
     ctx.count("vectors_evaluated", 1);
@@ -216,6 +249,16 @@ pub fn run(ctx: &mut Ctx) {
             ctx.sample(J::arr_s(&v));
         }
         check_exec(ctx, &v, "random");
+    });
+    let ni = ctx.n(600, 20_000);
+    ctx.family("incremental", ni, |ctx, rng, _i| {
+        let nargs = rng.range(1, 10);
+        let mut v = vec!["prog".to_string()];
+        for _ in 0..nargs {
+            v.push(if rng.chance(150) { String::new() } else { rand_word(rng, 12) });
+        }
+        ctx.distinct(&format!("inc{}", v.join("\u{1}")));
+        check_incremental(ctx, rng, &v);
     });
     let nc = ctx.n(600, 20_000);
     ctx.family("command-position", nc, |ctx, rng, _i| {
